@@ -783,6 +783,26 @@ def gen_c07_client(rng, n):
                 steps.append(cmd("decode", level=rng.choice(DECODES)))
         scs.append(scenario(k, steps, framing=framing, max_timeouts=rng.choice([0, 2]), decode=rng.choice(DECODES),
                             tag="c07-client"))
+    # "spin without progress or stop honouring shutdown": a peer that never answers but keeps sending well-formed frames
+    # (foreign ids, exceptions for other functions, unsolicited replies) faster than the response timeout; the request must
+    # still time out at its deadline, the queue behind it must move, and disable / shutdown must be acted upon
+    for timeout in (10, 60):
+        for period in (1, timeout // 2, timeout - 1):
+            for ending in ("shutdown", "disable", "drop"):
+                steps = [cmd("enable")]
+                st = rand_request(rng, 1, timeout=timeout, unit=1)
+                st2 = rand_request(rng, 2, timeout=timeout, unit=1)
+                steps += [st, st2, cmd(ending)]
+                t = 0
+                while t < 3 * timeout:
+                    steps.append(tick(period))
+                    t += period
+                    steps.append(rng.choice([reply(good_reply(rng, st), unit=1, txrel=-5), reply([st["fc"] + 128, 2], unit=1, txrel=7),
+                                             reply([3, 2, 0, 1], unit=9, txrel=100)]))
+                scs.append(scenario(len(scs), steps, framing="tcp", queue=16, max_timeouts=0, decode=rng.choice(DECODES),
+                                    tag=f"c07-client-dribble-{ending}"))
+    for i, s in enumerate(scs):
+        s["id"] = i
     return scs
 
 
